@@ -17,6 +17,51 @@ theorem blocks_eq_spec (size hop : Nat) (hs : 0 < size) (hh : 0 < hop) (pad : α
   have := bloop_spec size hop hs hh pad xs ⟨[], 0⟩ inv
   simpa [blocks, virt, lastN] using this
 
+/-- **C08.1b**: the same in the indexed words of the property: the output is the list of the
+`nFull` complete blocks `items k*hop .. k*hop+size-1` (k = 0 .. nFull-1, in order), followed by one
+final padded block iff the remaining `rest = xs.drop (nFull*hop)` holds more than
+`max(size-hop,0)` real items. -/
+theorem blocks_eq_closed (size hop : Nat) (hs : 0 < size) (hh : 0 < hop) (pad : α) (xs : List α) :
+    blocks size hop pad xs = blocksClosed size hop pad xs := by
+  rw [blocks_eq_spec size hop hs hh pad xs]
+  exact blocksSpec_eq_closed size hop hs hh pad xs.length xs rfl
+
+/-- Block `k` (for every complete block) is exactly items `k*hop .. k*hop+size-1`. -/
+theorem block_k (size hop : Nat) (hs : 0 < size) (hh : 0 < hop) (pad : α) (xs : List α)
+    (k : Nat) (hk : k < nFull size hop xs.length) :
+    (blocks size hop pad xs)[k]? = some ((xs.drop (k * hop)).take size) := by
+  rw [blocks_eq_closed size hop hs hh pad xs]
+  unfold blocksClosed
+  simp only
+  rw [List.getElem?_append_left (by simpa using hk)]
+  simp [hk]
+
+/-- The number of blocks: all complete ones, plus one iff the padded tail condition holds. -/
+theorem blocks_length (size hop : Nat) (hs : 0 < size) (hh : 0 < hop) (pad : α) (xs : List α) :
+    (blocks size hop pad xs).length =
+      nFull size hop xs.length +
+        (if ((xs.drop (nFull size hop xs.length * hop)).length : Int) > max ((size : Int) - hop) 0
+          then 1 else 0) := by
+  rw [blocks_eq_closed size hop hs hh pad xs]
+  unfold blocksClosed
+  simp only [List.length_append, List.length_map, List.length_range]
+  split <;> simp
+
+/-- every complete block has exactly `size` items -/
+theorem block_k_length (size hop : Nat) (xs : List α)
+    (k : Nat) (hk : k < nFull size hop xs.length) :
+    ((xs.drop (k * hop)).take size).length = size := by
+  unfold nFull at hk
+  split at hk
+  · omega
+  · rename_i h
+    have : k * hop ≤ xs.length - size := by
+      have := Nat.div_mul_le_self (xs.length - size) hop
+      have h2 : k ≤ (xs.length - size) / hop := by omega
+      exact Nat.le_trans (Nat.mul_le_mul_right hop h2) this
+    simp only [List.length_take, List.length_drop]
+    omega
+
 /-- **C08.2**: `zero_pad` yields exactly `left` pad items, the sequence, then `right` pad items. -/
 theorem zero_pad_eq_spec (left right : Nat) (zero : α) (xs : List α) :
     zeroPad left right zero xs = List.replicate left zero ++ xs ++ List.replicate right zero := rfl
@@ -28,6 +73,7 @@ theorem zero_pad_length (left right : Nat) (zero : α) (xs : List α) :
 /-- non-vacuity: hypotheses satisfiable, statement about a non-trivial input -/
 example : blocks 4 2 (0:Nat) [100,101,102,103,104] = [[100,101,102,103],[102,103,104,0]] := by decide
 example : blocks 2 3 (9:Nat) [0,1,2,3,4] = [[0,1],[3,4]] := by decide
+example : nFull 4 2 5 = 1 ∧ (0:Nat) < nFull 4 2 5 := by decide
 
 end ALV.Props.C08
 
